@@ -417,8 +417,32 @@ def rule_inv(run: Run, prog: Program) -> int:
                 return isinstance(e, ast.Call) and getattr(e.func, "id", getattr(e.func, "attr", "")) == name and e.args and isinstance(e.args[0], ast.Name) \
                     and e.args[0].id == A
 
+            if isinstance(v.op, ast.Mult):
+                # adjugate(A) * <reciprocal of the determinant>
+                other = v.right if any(isinstance(x, ast.Call) and getattr(x.func, "id", getattr(x.func, "attr", "")) == "adjugate" for x in ast.walk(v.left)) else v.left
+                adj_side = v.left if other is v.right else v.right
+                rec = other.value if isinstance(other, ast.Subscript) else other
+                rec = resolve(rec)
+                if isinstance(rec, ast.Call) and getattr(rec.func, "attr", getattr(rec.func, "id", "")) == "reciprocal":
+                    run.add("E12.inv", fn.short, ast.unparse(v)[:60], VIOLATION,
+                            "np.reciprocal keeps the dtype of its argument: for an integer determinant (integer matrices keep their dtype through the closed-form "
+                            "det) it returns 0 unless |det| == 1, so inv of an integer batch is the zero matrix - divide (true division) instead", loc)
+                    continue
+                if isinstance(rec, ast.BinOp) and isinstance(rec.op, ast.Pow):
+                    run.add("E12.inv", fn.short, ast.unparse(v)[:60], VIOLATION,
+                            "a negative power of an integer determinant raises ValueError / truncates: inv of an integer batch fails - divide (true division) instead", loc)
+                    continue
+                if isinstance(rec, ast.BinOp) and isinstance(rec.op, ast.Div) and is_call(adj_side, "adjugate"):
+                    # adj * (1 / d)[..., None, None]: rewrite as the quotient and judge that
+                    v = ast.BinOp(left=adj_side, op=ast.Div(), right=ast.Subscript(value=rec.right, slice=other.slice, ctx=ast.Load()) if isinstance(other, ast.Subscript) else rec.right)
+                else:
+                    run.add("E12.inv", fn.short, ast.unparse(v)[:60], UNDECIDED, "product form of the quotient not recognised", loc)
+                    continue
+            if isinstance(v.op, ast.FloorDiv):
+                run.add("E12.inv", fn.short, ast.unparse(v)[:60], VIOLATION, "floor division truncates the entries of the inverse", loc)
+                continue
             if not isinstance(v.op, ast.Div):
-                run.add("E12.inv", fn.short, ast.unparse(v)[:60], VIOLATION, "the closed form combines adjugate and determinant with an operator other than division", loc)
+                run.add("E12.inv", fn.short, ast.unparse(v)[:60], UNDECIDED, "the closed form combines adjugate and determinant with an operator that is not recognised", loc)
                 continue
             num, den = v.left, v.right
             den_base = den.value if isinstance(den, ast.Subscript) else den
